@@ -182,7 +182,7 @@ pub fn run(rep: &mut Report) {
     narrow::<P8E0>(rep);
     narrow::<P16E1>(rep);
     narrow::<P32E2>(rep);
-    let g = tier.pick(300_000, 5_000_000);
+    let g = tier.pick(1_000_000, 5_000_000);
     fn wide<P: PT>(rep: &mut Report, g: u64) {
         rep.generated(&format!("{} from_i32/u32/i64/u64/isize/usize (int64 generator)", P::NAME), g, gen::int64, |&v, l| {
             for op in 4..10 {
@@ -210,9 +210,9 @@ pub fn run(rep: &mut Report) {
     });
     match tier {
         Tier::Quick => {
-            let off = rep.cfg.seed % 16;
-            rep.lattice("every 16th 32-bit integer (offset = seed mod 16): from_i32, from_u32 -> three types (fast oracle)", 1 << 28, move |i, l| from_32_fast(i * 16 + off, l));
-            rep.lattice("P32E2 every 16th pattern: to_i32/u32/i64/u64 (fast oracle)", 1 << 28, move |i, l| to_int_fast(i * 16 + off, l));
+            let off = rep.cfg.seed % 2;
+            rep.lattice("every 2nd 32-bit integer (offset = seed mod 2): from_i32, from_u32 -> three types (fast oracle)", 1 << 31, move |i, l| from_32_fast(i * 2 + off, l));
+            rep.exhaustive("P32E2 all 2^32 patterns: to_i32/u32/i64/u64 (fast oracle)", 1 << 32, |i, l| to_int_fast(i, l));
         }
         Tier::Thorough => {
             rep.exhaustive("all 2^32 32-bit integers: from_i32, from_u32 -> three types (fast oracle)", 1 << 32, |i, l| from_32_fast(i, l));
